@@ -216,7 +216,7 @@ def producers_nonempty(db, callee_fn, param_index):
             for r in rels:
                 if r[0] == 'false' and r[1][0] == 'call' and r[1][1].endswith('is_empty') and X.canon(r[1][2][0]) == X.canon(arg):
                     ok = True
-                if r[0] == 'ne' and 'len' in X.canon(r[1]) and X.canon(arg) in X.canon(r[1]) and norm(r[2]) == ('k', 0):
+                if r[0] == 'ne' and common.is_len_of(r[1]) and X.canon(arg) in X.canon(r[1]) and norm(r[2]) == ('k', 0):
                     ok = True
             if not ok:
                 return False, f'{g.path}: direct call with a vector not known to be non-empty'
@@ -251,7 +251,7 @@ def d_guarded_unwrap(f, s, R, db):
         src = X.canon(a)
         rels = G.relations(f, R, s['block'])
         for r in rels:
-            if r[0] == 'ne' and norm(r[2]) == ('k', 0) and 'DenseMatrix::rows' in X.canon(r[1]):
+            if r[0] == 'ne' and norm(r[2]) == ('k', 0) and common.is_call_to(r[1], 'DenseMatrix::rows'):
                 recv = norm(r[1])[2][0]
                 if X.canon(recv) in src:
                     return 'guarded: rows() != 0 dominates .max().unwrap() over the rows'
